@@ -1,10 +1,16 @@
 #!/bin/sh
 # usage: ./run.sh <property-id> [quick|thorough]
+#        ./run.sh --explain <evidence/Cxx.violations.json>   re-runs the property's rules and prints the recorded violations
 # Rebuilds the checker if its sources are newer than the binary, then analyses /repo's current working tree.
 cd "$(dirname "$0")" || exit 2
 export GOFLAGS=-mod=mod GOPROXY=off GOSUMDB=off GOTOOLCHAIN=local
 unset GOWORK
 if [ ! -x bin/verifcheck ] || [ -n "$(find checker -name '*.go' -newer bin/verifcheck 2>/dev/null | head -1)" ]; then
   ./build.sh || { echo "BUILD-FAILED"; exit 2; }
+fi
+if [ "$1" = "--explain" ]; then
+  f="$2"; id=$(basename "$f" | cut -d. -f1)
+  [ -f "$f" ] && cat "$f"
+  exec bin/verifcheck -property "$id" -tier quick -repo "${VERIF_REPO:-/repo}" -verif "$(pwd)"
 fi
 exec bin/verifcheck -property "$1" -tier "${2:-${VERIF_TIER:-quick}}" -repo "${VERIF_REPO:-/repo}" -verif "$(pwd)"
